@@ -516,6 +516,23 @@ fn gen_topk(rng: &mut Rng, tier: Tier, cases: &mut Vec<Case>) {
             cases.push(topk_case_t("topk-huge-k", k, ty, &xs));
         }
     }
+    // large k (2k beyond 4096 / 8192 / 65 536: buffer caps and compaction boundaries), inputs longer than 2k
+    for (k, n, shape) in [(4097usize, 20_000usize, 0u8), (2049, 9_000, 1), (5000, 20_000, 2), (33_000, 70_000, 1)] {
+        if tier == Tier::Quick && k > 6000 {
+            continue;
+        }
+        let mut xs: Vec<i128> = (0..n as i128).collect();
+        match shape {
+            0 => {}
+            1 => rng.shuffle(&mut xs),
+            _ => {
+                for x in xs.iter_mut() {
+                    *x = rnd128(rng, -1000, 1000);
+                }
+            }
+        }
+        cases.push(topk_case_t("topk-large-k", k, "i64", &xs));
+    }
     let nrand = match tier {
         Tier::Quick => 400,
         Tier::Thorough => 10000,
